@@ -1045,7 +1045,7 @@ Lemma give_up_conn fx s c k :
              senders (give_up fx s c k) = senders s.
 Proof.
   intros H. pose proof (nth_error_lt _ _ _ H) as L. unfold give_up.
-  destruct fx; cbn; rewrite nth_error_upd_eq by auto; eexists; repeat split; reflexivity.
+  destruct (f11 fx); cbn; rewrite nth_error_upd_eq by auto; eexists; repeat split; reflexivity.
 Qed.
 
 (* every connection set-up in progress (dialling side inside connect(), accepting
@@ -1071,6 +1071,10 @@ Proof.
       exists (ALaunch c), (give_up fx s c k), k'. cbn. rewrite H, Es, Ec. repeat split; auto. rewrite Hs'. cbn. lia.
     + exists (ALaunch c). eexists. eexists. cbn. rewrite H, Es, Ec. split; [reflexivity|]. cbn.
       rewrite nth_error_upd_eq by auto. repeat split. cbn. lia.
+  - (* IAccept: beginNegotiation, whatever its outcome *)
+    exists (ABegin c). cbn. rewrite H, Es.
+    destruct (f43 fx); [destruct (closed s)|]; eexists; eexists; (split; [reflexivity|]); cbn;
+      rewrite nth_error_upd_eq by auto; repeat split; cbn; lia.
   - exists (ARecvIdFail c). eexists. eexists. cbn. rewrite H, Es. split; [reflexivity|]. cbn.
     rewrite nth_error_upd_eq by auto. repeat split. cbn. lia.
   - exists (ACheckPeer c true). eexists. eexists. cbn. rewrite H, Es. split; [reflexivity|]. cbn.
@@ -1158,7 +1162,9 @@ Theorem stop_idempotent fx acts s :
 Proof.
   intros R Hr t. destruct (registered_closed_at_return _ _ _ R Hr) as (Hc & Hl & Hw & Ht & _ & _).
   assert (Same : close_listed (table s) 0 (conns s) = conns s).
-  { apply close_listed_same. intros j k Hin Hn. cbn in Hin. eauto. }
+  { apply close_listed_same. intros j k [Hin|Hn] Hj; cbn in *; [eauto|].
+    pose proof (neg_count_pos _ _ _ Hj Hn) as P.
+    rewrite <- (inv_wg _ _ (reachable_inv _ _ _ R)) in P. lia. }
   unfold t. destruct s as [li cl tb w cs sn st sr di la ab cr]. cbn in *. subst.
   rewrite nth_error_app_last. cbn. rewrite upd_app_last.
   rewrite nth_error_app_last. cbn. rewrite upd_app_last, Same.
@@ -1171,16 +1177,70 @@ Qed.
    refused, an established connection delivers a message before the stop and
    everything is closed at the end *)
 Definition example_run : list action :=
-  [AIncoming 2; ARecvIdOk 0; ACheckPeer 0 true; ARegister 0; ALaunch 0;      (* established inbound *)
+  [AIncoming 2; ABegin 0; ARecvIdOk 0; ACheckPeer 0 true; ARegister 0; ALaunch 0; AEnd 0;  (* established inbound *)
    AHRecvMsg 0 7; AHCheck 0; AHDispatch 0;                                   (* one delivery *)
    ACallSend 1; ALookup 0; ADialOk 0; ASendIdOk 1;                           (* first contact, at router.connected *)
-   AIncoming 3; ARecvIdOk 2;                                                 (* inbound, at router.identityReceived *)
+   AIncoming 3; ABegin 2; ARecvIdOk 2;                                       (* inbound, at router.identityReceived *)
    ACallStop; AHostStop 0; ACloseAll 0;
    AHRecvErr 0; AHCheck 0; AHExitClose 0; AHExitDone 0; AHExitRemove 0;
+   ACheckPeer 2 true; ARegister 2; AEnd 2;                                   (* the callback is refused and ends *)
    AWait 0;
-   ARegister 1; AConnReturn 0; ACheckPeer 2 true; ARegister 2].
+   ARegister 1; AConnReturn 0].
 
 Example example_reachable :
-  exists s, run true init example_run = Some s /\ stop_returned s = true /\ quiescent s = true /\
+  exists s, run (mkFx true true) init example_run = Some s /\ stop_returned s = true /\ quiescent s = true /\
             dispatched s = [(0, 7)] /\ senders s = [NDone Err] /\ open_conns s = [].
 Proof. eexists. split; [vm_compute; reflexivity|]. repeat split; vm_compute; reflexivity. Qed.
+
+(* ---- with both repairs: no hypothesis on pending set-ups -------------------- *)
+
+(* At the instant Stop returns (no quiescence assumed): no handler and no callback under
+   negotiation is alive, and the only connections still open are those whose set-up thread
+   has not yet reached its first test of the closed flag - a dialling Send before
+   registerConnection, a Listen callback before beginNegotiation ... *)
+Theorem closed_at_return_fixed acts s :
+  run (mkFx true true) init acts = Some s -> stop_returned s = true ->
+  (forall c k, nth_error (conns s) c = Some k -> live (hd k) = false /\ neg k = false) /\
+  (forall c k, nth_error (conns s) c = Some k -> lopen k = true ->
+               setup k = OSendId \/ setup k = ORegister \/ setup k = IAccept).
+Proof.
+  intros R Hr. pose proof (reachable_inv _ _ _ R) as I. destruct (inv_ret _ _ I Hr) as [Hc Hw].
+  assert (Z : count_busy (conns s) = 0) by (rewrite <- (inv_wg _ _ I); auto).
+  split.
+  - intros c k H. split; [eapply no_live_when_zero|eapply no_neg_when_zero]; eauto.
+  - intros c k H L. destruct (inv_conn _ _ I _ _ H) as [H1 H2 H3 H4 H5 H6 H7 H8].
+    destruct (H2 L) as [E|[E|E]].
+    + destruct (setup k) eqn:Es; try discriminate; auto.
+      * rewrite H1 in L; auto; discriminate.
+      * rewrite (no_neg_when_zero _ _ _ Z H) in H6. specialize (H6 eq_refl eq_refl). discriminate.
+      * rewrite (no_neg_when_zero _ _ _ Z H) in H6. specialize (H6 eq_refl eq_refl). discriminate.
+      * rewrite (no_neg_when_zero _ _ _ Z H) in H6. specialize (H6 eq_refl eq_refl). discriminate.
+      * rewrite (no_neg_when_zero _ _ _ Z H) in H6. specialize (H6 eq_refl eq_refl). discriminate.
+    + apply holding_live in E. rewrite (no_live_when_zero _ _ _ Z H) in E. discriminate.
+    + rewrite (inv_fix _ _ I eq_refl) in E. destruct E.
+Qed.
+
+(* ... and that first test refuses and closes them *)
+Theorem refused_after_close s c k :
+  closed s = true -> nth_error (conns s) c = Some k ->
+  (setup k = IAccept ->
+   exists s' k', step (mkFx true true) s (ABegin c) = Some s' /\ nth_error (conns s') c = Some k' /\
+                 lopen k' = false /\ setup k' = SetupErr /\ wg s' = wg s) /\
+  (setup k = ORegister \/ setup k = IRegister ->
+   exists s' k', step (mkFx true true) s (ARegister c) = Some s' /\ nth_error (conns s') c = Some k' /\
+                 lopen k' = false /\ setup k' = SetupErr /\ wg s' = wg s).
+Proof.
+  intros Hc Hk. pose proof (nth_error_lt _ _ _ Hk) as L. split.
+  - intros Es. eexists. eexists. cbn. rewrite Hk, Es, Hc. split; [reflexivity|]. cbn.
+    rewrite nth_error_upd_eq by auto. repeat split.
+  - intros [Es|Es]; eexists; eexists; cbn; rewrite Hk, Es, Hc; (split; [reflexivity|]); cbn;
+      rewrite nth_error_upd_eq by auto; repeat split.
+Qed.
+
+(* a connection that arrives exactly during Stop: accepted before host.Stop returned, its
+   callback starts after the closed flag is set *)
+Example arrival_during_stop :
+  exists s, run (mkFx true true) init
+              [AIncoming 1; ACallStop; AHostStop 0; ACloseAll 0; AWait 0; ABegin 0] = Some s /\
+            stop_returned s = true /\ quiescent s = true /\ open_conns s = [] /\ wg s = 0.
+Proof. eexists. split; [vm_compute; reflexivity|]. repeat split. Qed.
